@@ -54,8 +54,11 @@ def fun(dom, f, var="t", domname="MCTests"):
     return "[%s \\in %s |-> " % (var, domname) + " ".join(("CASE" if i == 0 else "[]") + " %s = %s -> %s" % (var, tla(t), f(t)) for i, t in enumerate(dom)) + "]"
 
 
+OWN_UNEXPLORED = True     # what the code under check does (see Traversal.tla OwnUnexplored)
+
+
 def write_mc(work, name, mc, pools, spec, statuses, maxtries=1, maxconc=1, rerun=None, stop=(), maxbounce=1, lazy=True, invariants=(),
-             constraint=None, postcondition=None, extra_cfg="", dry=False, useprio=False):
+             constraint=None, postcondition=None, extra_cfg="", dry=False, useprio=False, ownunexplored=None):
     """pools: list of dict loc -> set(states)"""
     ws = mc["workers"]
     with open(os.path.join(work, name + ".tla"), "w") as f:
@@ -77,8 +80,9 @@ def write_mc(work, name, mc, pools, spec, statuses, maxtries=1, maxconc=1, rerun
         f.write("SPECIFICATION %s\nCONSTANTS\n W <- MCW\n WOrder <- MCWOrder\n Tests <- MCTests\n Root = \"t0\"\n FlatLeaves <- MCFlat\n ObjRoots <- MCObjRoots\n"
                 " Stateful <- MCStateful\n Setup <- MCSetup\n Gets <- MCGets\n Sets <- MCSets\n UnsetSets <- MCUnsetSets\n Removable <- MCRemovable\n"
                 " Closure <- MCClosure\n Unrestricted <- MCUnrestricted\n Incompatible <- MCIncompatible\n InitPools <- MCInitPools\n Statuses <- MCStatuses\n MaxTries = %d\n MaxConc = %d\n"
-                " RerunSet <- MCRerun\n StopSet <- MCStop\n MaxBounce = %d\n Lazy = %s\n DryRun = %s\n Prio <- MCPrio\n UsePrio = %s\n"
-                % (spec, maxtries, maxconc, maxbounce, "TRUE" if lazy else "FALSE", "TRUE" if dry else "FALSE", "TRUE" if useprio else "FALSE"))
+                " RerunSet <- MCRerun\n StopSet <- MCStop\n MaxBounce = %d\n Lazy = %s\n DryRun = %s\n Prio <- MCPrio\n UsePrio = %s\n OwnUnexplored = %s\n"
+                % (spec, maxtries, maxconc, maxbounce, "TRUE" if lazy else "FALSE", "TRUE" if dry else "FALSE", "TRUE" if useprio else "FALSE",
+                   "TRUE" if (OWN_UNEXPLORED if ownunexplored is None else ownunexplored) else "FALSE"))
         for inv in invariants:
             f.write("INVARIANT %s\n" % inv)
         if constraint:
@@ -117,12 +121,12 @@ def residue_pools(mc, max_present=2):
 SAFETY = ["TypeOK", "PathContinuous", "NoC01", "NoC03", "NoC04", "NoC05", "NoC10", "Completed"]
 
 
-def explore(work, inst, name, pools, statuses=("PASS", "FAIL"), maxbounce=1, lazy=None, maxtries=1, invariants=SAFETY, timeout=3000):
+def explore(work, inst, name, pools, statuses=("PASS", "FAIL"), maxbounce=1, lazy=None, maxtries=1, invariants=SAFETY, timeout=3000, ownunexplored=None):
     C.stage_specs(work, os.path.join(C.SPECS, "traversal"))
     mc = model_constants(inst)
     write_mc(work, name, mc, pools, "Spec", statuses, maxtries=maxtries, maxconc=max(maxtries, 1), maxbounce=maxbounce,
              lazy=inst.lazy if lazy is None else lazy,
-             invariants=invariants, constraint="BounceBound")
+             invariants=invariants, constraint="BounceBound", ownunexplored=ownunexplored)
     return C.run_tlc(work, name, name + ".cfg", timeout=timeout, heap="24g"), mc
 
 
